@@ -30,7 +30,7 @@ class Builtins:
             ek = self.shape_of(src + '[]')
             if kind in ('seq', 'str'):
                 st.add(th.vlen(sv.term) >= 0)
-                return VIter(th.vlen(sv.term), lambda i, s: VVal(z3.Select(th.sq_arr(sv.term), i), kind=ek))
+                return VIter(th.vlen(sv.term), lambda i, s: self.mkval(z3.Select(th.sq_arr(sv.term), i), ek))
             if kind == 'map':
                 return self.map_iter(sv, 'keys', st)
             if kind == 'set':
@@ -49,8 +49,6 @@ class Builtins:
         i = z3.Int('i!mk')
         k = z3.Const('k!mk', th.Val)
         key = f'mapiter:{t}'
-        if key not in self.iter_facts_added:
-            self.iter_facts_added.add(key)
         # standing facts tying key order and membership together (instantiated by e-matching)
         facts = [
             th.vlen(t) >= 0,
@@ -62,8 +60,9 @@ class Builtins:
                                       z3.And(th.m_idx(t, k) >= 0, th.m_idx(t, k) < th.vlen(t), th.m_key(t, th.m_idx(t, k)) == k)),
                       patterns=[th.m_idx(t, k), z3.Select(th.m_hasA(t), k)]),
         ]
-        st.add(*facts)
-        self.standing.extend(facts)
+        if key not in self.iter_facts_added:
+            self.iter_facts_added.add(key)
+            self.standing.extend(facts)
         src = f'{what}'
         ek = None
 
@@ -243,7 +242,7 @@ class Builtins:
                 return self.getattr_sv(o, name, st, None) if not isinstance(o, VVal) else self.getattr_named(o, name, st, node)
             ov = self.toVal(o, st)
             has = th.has_attr(name)(ov)
-            return [(VVal(z3.If(has, th.fld(name)(ov), self.toVal(args[2], st)), kind=self.shape_of('.' + name)), st)]
+            return [(self.mkval(z3.If(has, th.fld(name)(ov), self.toVal(args[2], st)), self.shape_of('.' + name)), st)]
         # dynamic name: the record idiom getattr(self, f.name)
         ov = self.toVal(o, st)
         nv = self.toVal(n, st)
@@ -257,7 +256,7 @@ class Builtins:
         th = self.th
         term = th.fld(name)(o.term)
         kind = self.shape_of('.' + name)
-        out = VVal(term, kind=kind)
+        out = self.mkval(term, kind)
         root_ok = node is not None and len(node.args) >= 1 and self.src(node.args[0]) in ('self', 'cls', 'self.cls')
         if self.spec_mode or root_ok or o.kind in ('rec', 'conv') or o.cls is not None:
             return [(out, st)]
@@ -279,7 +278,7 @@ class Builtins:
                 kt = self.th.strc(name)
                 hv = z3.simplify(z3.Select(store.has, kt))
                 if z3.is_true(hv):
-                    return VVal(z3.simplify(z3.Select(store.get, kt)), kind=self.shape_of('.' + name))
+                    return self.mkval(z3.simplify(z3.Select(store.get, kt)), self.shape_of('.' + name))
         return None
 
     def bi_setattr(self, args, kwargs, st, node):
@@ -303,6 +302,17 @@ class Builtins:
         if isinstance(o, VVal) and (o.fresh or str(o.term) in self.mutable_terms):
             return True
         return False
+
+    def frame_ok(self, st, what):
+        """A mutating operation whose receiver was created inside the function (ownership check passed)."""
+        if self.spec_mode:
+            return
+        key = what
+        if key in self.frame_sites:
+            return
+        self.frame_sites.add(key)
+        self.emit(Obligation(self.cur_func_key, 'frame', f'{self.next_label()}', self.frame_props, [], z3.BoolVal(True),
+                             origin=f'mutation of a function-local object only: {what}', path_kind='mutation', route='ownership'))
 
     def frame_violation(self, st, what, node):
         self.emit(Obligation(self.cur_func_key, 'frame', f'{self.next_label()}', self.frame_props,
@@ -453,29 +463,47 @@ class Builtins:
         t = self.toVal(VTuple(tuple(it.static)), s)
         return VVal(z3.Select(self.th.sq_arr(t), i))
 
+    def kept_positions(self, keep_at, n, st):
+        """Canonical order-preserving enumeration of the indices i in [0,n) with keep_at(i).
+        The function symbols are named after the (index-normalised) text of the predicate, so code and
+        specification that filter by the same condition talk about the same enumeration."""
+        import hashlib
+        th = self.th
+        probe = z3.Int('$i')
+        s0 = State(dict(st.env), [])
+        kp = z3.simplify(keep_at(probe, s0))
+        n = z3.simplify(n) if z3.is_expr(n) else n
+        key = hashlib.sha1((str(kp) + '|' + str(n)).encode()).hexdigest()[:12]
+        cnt = z3.Int('kcnt_' + key)
+        pos = th.fn('kpos_' + key, th.I, th.I)
+        rank = th.fn('krank_' + key, th.I, th.I)
+        j = z3.Int('j!kp')
+        j2 = z3.Int('j2!kp')
+        kj = lambda t: z3.substitute(kp, (probe, t))
+        facts = [cnt >= 0, cnt <= n,
+                 z3.ForAll([j], z3.Implies(z3.And(j >= 0, j < cnt),
+                                           z3.And(pos(j) >= 0, pos(j) < n, kj(pos(j)), rank(pos(j)) == j)), patterns=[pos(j)]),
+                 z3.ForAll([j, j2], z3.Implies(z3.And(j >= 0, j < j2, j2 < cnt), pos(j) < pos(j2)),
+                           patterns=[z3.MultiPattern(pos(j), pos(j2))]),
+                 z3.ForAll([j], z3.Implies(z3.And(j >= 0, j < n, kj(j)),
+                                           z3.And(rank(j) >= 0, rank(j) < cnt, pos(rank(j)) == j)), patterns=[rank(j)])]
+        for f in s0.pc:
+            facts.append(z3.ForAll([probe], f))
+        if key not in self.kept_cache:
+            # definitional (the enumeration always exists): standing facts of this function's queries
+            self.kept_cache.add(key)
+            self.standing.extend(facts)
+        return cnt, pos, rank
+
     def zip_filtered(self, its, st, node):
         """zip(filtered_source, plain_source): position j of the result pairs the j-th KEPT element of the
-        first with element j of the second.  We expose the order-preserving position function."""
-        th = self.th
+        first with element j of the second."""
         if len(its) != 2 or its[0].keep is None or its[1].keep is not None:
             raise OutOfSubset('zip with filtered source in this position', node)
         f, p = its
-        cnt = th.fresh('kept_count', th.I)
-        pos = th.fn('zpos_' + str(cnt), th.I, th.I)
-        j = th.fresh('j', th.I)
-        s0 = State(dict(st.env), list(st.pc))
-        facts = [cnt >= 0, cnt <= f.n,
-                 z3.ForAll([j], z3.Implies(z3.And(j >= 0, j < cnt), z3.And(pos(j) >= 0, pos(j) < f.n, f.keep(pos(j), s0)))),
-                 z3.ForAll([j], z3.Implies(z3.And(j >= 0, j + 1 < cnt), pos(j) < pos(j + 1))),
-                 ]
-        jj = th.fresh('jj', th.I)
-        inv = th.fn('zinv_' + str(cnt), th.I, th.I)
-        facts.append(z3.ForAll([jj], z3.Implies(z3.And(jj >= 0, jj < f.n, f.keep(jj, s0)),
-                                                z3.And(inv(jj) >= 0, inv(jj) < cnt, pos(inv(jj)) == jj))))
-        st.add(*facts)
+        cnt, pos, rank = self.kept_positions(f.keep, f.n, st)
         n = z3.If(p.n < cnt, p.n, cnt)
         res = VIter(n, lambda i, s: VTuple((f.at(pos(i), s), p.at(i, s))))
-        object.__setattr__(res, '_zpos', (pos, cnt, inv))
         return [(res, st)]
 
     def bi_filter(self, args, kwargs, st, node):
@@ -725,7 +753,7 @@ class Builtins:
                 k = self.toVal(args[0], st)
                 d = self.toVal(args[1], st) if len(args) > 1 else th.NoneV
                 ek = self.shape_of(self.src(node.func.value) + '[]') if node is not None else None
-                r = VVal(z3.If(z3.Select(th.m_hasA(t), k), z3.Select(th.m_getA(t), k), d), kind=ek)
+                r = self.mkval(z3.If(z3.Select(th.m_hasA(t), k), z3.Select(th.m_getA(t), k), d), ek)
                 return self.hash_guard(k, r, st, origin, args[0])
             if meth in ('pop', 'update', 'setdefault'):
                 if not recv.fresh:
@@ -741,7 +769,7 @@ class Builtins:
         suffix = ('_kw_' + '_'.join(sorted(kwargs))) if kwargs else ''
         rt = th.fn(f'meth_{meth}_{len(a) - 1}{suffix}', *([th.Val] * len(a)), th.Val)(*a)
         rk = self.shape_of('.' + meth + '()')
-        res = VVal(rt, kind=rk, fresh=True)
+        res = self.mkval(rt, rk, fresh=True)
         if meth in ('lower', 'upper', 'title', 'join', 'lstrip', 'rstrip', 'strip', 'isoformat', 'getvalue'):
             st.add(th.isc('str')(rt))
             res = VVal(rt, kind='str', fresh=True)
@@ -774,6 +802,8 @@ class Builtins:
         def store(newb):
             if target is not None and rebind is not None:
                 self.assign_target(target, newb, st, node, rebinding=True)
+        if meth in ('append', 'add', 'pop', 'update', 'extend', 'setdefault', 'remove', 'discard') and rebind is not None:
+            self.frame_ok(st, f'{self.src(node)[:60]}')
         if isinstance(b, VListB) or (isinstance(b, VTuple) and b.is_list):
             if isinstance(b, VTuple):
                 arr = th.dflt_seq
@@ -785,6 +815,24 @@ class Builtins:
                 return [(self.none(), st)]
             if meth == 'copy':
                 return [(b, st)]
+            if meth == 'extend':
+                o = args[0]
+                if isinstance(o, VTuple):
+                    nb = b
+                    for it in o.items:
+                        nb = VListB(z3.Store(nb.arr, nb.n, self.toVal(it, st)), nb.n + 1)
+                    store(nb)
+                    return [(self.none(), st)]
+                src = self.itersrc(o, st, node.args[0] if node is not None else None)
+                if src.keep is not None or src.static is not None:
+                    raise OutOfSubset('list.extend with filtered source', node)
+                i = z3.Int('i!ext')
+                s0 = State(dict(st.env), [])
+                ev = self.toVal(src.at(i - b.n, s0), s0)
+                arr = z3.Lambda([i], z3.If(i < b.n, z3.Select(b.arr, i), ev))
+                st.add(src.n >= 0)
+                store(VListB(arr, b.n + src.n))
+                return [(self.none(), st)]
         if isinstance(b, VSetB):
             if meth == 'add':
                 k = self.toVal(args[0], st)
@@ -900,7 +948,7 @@ class Builtins:
         if name == 'attr':
             n = args[1]
             if isinstance(n, VVal) and n.py is not None:
-                return [(VVal(th.fld(n.py[1])(V(0)), kind=self.shape_of('.' + n.py[1])), st)]
+                return [(self.mkval(th.fld(n.py[1])(V(0)), self.shape_of('.' + n.py[1])), st)]
             raise OutOfSubset('attr(o, "name")', node)
         if name == 'dynattr':
             return [(VVal(th.fn('dynattr', th.Val, th.Val, th.Val)(V(0), V(1))), st)]
@@ -921,6 +969,13 @@ class Builtins:
             return [(VBool(th.fn('val_lt', th.Val, th.Val, th.B)(V(0), V(1))), st)]
         if name == 'card':
             return self.bi_len(args, kwargs, st, node)
+        if name == 'zlen':
+            a_, b_ = self.toInt(args[0], st), self.toInt(args[1], st)
+            return [(VInt(z3.If(b_ < a_, b_, a_)), st)]
+        if name == 'ghost':
+            # ghost("NAME", *entry_params) -> Bool
+            ps = [self.toVal(x, st) for x in args[1:]]
+            return [(VBool(th.fn('ghost_' + args[0].py[1], *([th.Val] * len(ps)), th.B)(*ps)), st)]
         if name in ('mhas', 'mget', 'without_key'):
             m = args[0]
             if isinstance(m, VMapB):
